@@ -75,6 +75,8 @@ def make_config(r, kind):
     if kind == "ensemble":
         nw = n + 1 + r.randint(0, 3)
         cfg["alpha"] = r.choice([2.0, 2.0, 8.0, 1.5, 3.0, 5.0])
+        # a small attempt budget makes the failed-update path (walker keeps its position) common
+        cfg["max_attempts"] = r.choice([100, 100, 1, 2, 3])
         def valid(sp):
             arr = np.array(sp, dtype=float)
             try:
@@ -163,6 +165,7 @@ def build(cfg, uniform_bits=None):
             ch = EnsembleSampler(posterior=post, starting_positions=np.array(cfg["positions"], dtype=float),
                                  alpha=cfg["alpha"], bounds=bounds, display_progress=False)
             ch.rng = rng
+            ch.max_attempts = int(cfg.get("max_attempts", 100))
         else:
             raise ValueError(kind)
     S.freeze_adaptation(ch)
